@@ -4,7 +4,7 @@
    asking for a rerun —, any pre-handlers, any interrupt sets) and Proofs/Interrupt.v (the
    instance the correspondence check evaluates: Pregel and DAG channels of Model/Graph.v). *)
 From Eino Require Import Base.Util Model.Graph Model.RunLoop Model.Interrupt Model.IntrObs
-     Proofs.RunLoopSusp Proofs.InterruptNested Proofs.InterruptNestedDag
+     Proofs.DagInv Proofs.InterruptChanDagSkip Proofs.RunLoopSusp Proofs.InterruptNested Proofs.InterruptNestedDag
      Proofs.RunLoop Proofs.RunLoopRerun Proofs.Interrupt Proofs.InterruptRerun Proofs.InterruptWitness.
 From Coq Require Import Permutation.
 Open Scope N_scope.
@@ -253,8 +253,10 @@ Proof. exact (conj w_rerun_ok (conj w_rerun_uninterrupted w_rerun_completes)). Q
    the executions inside it) is, when it completes, the trace [trU k v] of the uninterrupted body. Asked of
    the channel layer ([chan_layer], relative to a joint invariant of the channel table and the tasks
    handed out): folding completed tasks is compositional and order-independent; of the state handlers
-   ([state_layer]): the pre-handler of a rerunnable node rebuilds its input. Then, for ANY interrupt sets,
-   ANY pattern of suspensions and aborted attempts and ANY number of calls: whenever the run driven
+   ([state_layer]): the pre-handler of a rerunnable node rebuilds its input; [geq] relates the states the
+   pre-handlers cannot tell apart — what the state modifiers of the calls may change. Then, for ANY interrupt
+   sets, ANY pattern of suspensions and aborted attempts, ANY state modifiers within [geq] and ANY number of
+   calls: whenever the run driven
    through the store completes, it completes with the output of the uninterrupted run, its completed first
    attempts are — as a multiset of (node, input) — the executions of the uninterrupted run, and everything
    its bodies emitted is — as a multiset — what the bodies of the uninterrupted run emit. The same theorem
@@ -278,26 +280,28 @@ Section GenericSusp.
   Variable J : CS -> list N -> Prop.
   Hypothesis H_chan : chan_layer fold getr J.
   Variable GOK : GS -> Prop.
-  Hypothesis H_state : state_layer (SCP := SCP) zero pre rerunnable GOK.
+  Variable geq : GS -> GS -> Prop.
+  Hypothesis H_state : state_layer (SCP := SCP) zero pre rerunnable GOK geq.
 
   Theorem susp_equiv : forall {B : Type} (ser : @checkpoint V CS GS SCP -> B) deser,
     (forall c, deser (ser c) = Some c) ->
     forall tick : nat -> ENV -> ENV, (forall k e, EOK e -> EOK (tick k e) /\ tr (tick k e) = tr e) ->
+    forall mods : nat -> GS -> GS, (forall k g, geq (mods k g) g) ->
     forall fuelR cs0 gs0 x fuelU vU lU n env cos env' cos' co,
       J cs0 [kStart] -> GOK gs0 -> EOK env ->
       start zero fold getr pre (RunLoopSusp.execU (SCP := SCP) (SINFO := SINFO) body) [] [] fuelU cs0 gs0 x tt = (ODone vU, lU, tt) ->
       (fuelU <= fuelR)%nat ->
       drive ser deser (start zero fold getr pre execR before after fuelR cs0 gs0 x)
             (resume zero fold getr pre execR before after fuelR)
-            tick true n 0 (fun _ g => g) None env = (cos, env') ->
+            tick true n 0 mods None env = (cos, env') ->
       cos = cos' ++ [co] ->
       RunLoopSusp.is_interrupt (co_out co) \/
       (co_out co = ODone vU /\ Permutation (RunLoopSusp.good (RunLoopSusp.all_logs cos)) lU /\
        exists Lnew, tr env' = tr env ++ Lnew /\ Permutation Lnew (TU trU lU)).
   Proof.
-    intros B ser deser Hser tick Htick fuelR cs0 gs0 x fuelU vU lU n env cos env' cos' co Hj Hg He HU Hle Hd Hcos.
-    exact (susp_equiv_l zero fold getr pre body rerunnable execR before after tr trU EOK Susp H_proto J H_chan GOK H_state
-             fuelR vU lU cs0 gs0 x Hj Hg fuelU HU Hle ser deser Hser tick Htick n env cos env' cos' co He Hd Hcos).
+    intros B ser deser Hser tick Htick mods Hmods fuelR cs0 gs0 x fuelU vU lU n env cos env' cos' co Hj Hg He HU Hle Hd Hcos.
+    exact (susp_equiv_l zero fold getr pre body rerunnable execR before after tr trU EOK Susp H_proto J H_chan GOK geq H_state
+             fuelR vU lU cs0 gs0 x Hj Hg fuelU HU Hle ser deser Hser tick Htick mods Hmods n env cos env' cos' co He Hd Hcos).
   Qed.
 End GenericSusp.
 
@@ -306,8 +310,9 @@ End GenericSusp.
    edge carries data and control, branches carry data; END has a predecessor: Compile guarantees it) —
    nested to any depth, interrupt-before/after sets and rerun tables at
    EVERY level (every node with a rerun table has the stamping/rebuilding pre-handler: [rerun_ok'], the
-   property's proviso), input keys, state handlers — driven by [run_drive] through the store (calls without
-   state modifier), against the reference run of the same forest without any interrupt configuration
+   property's proviso), input keys, state handlers — driven by [run_drive] through the store, the calls
+   carrying a state modifier or not ([mods]: the harness's modifier bumps a counter of the state, at the top
+   level and in every resumed nested graph), against the reference run of the same forest without any interrupt configuration
    ([map strip F], one call: what [ref_ok] of the correspondence evaluates). Whenever the driven run
    completes, it completes with the output of the reference run; its top-level executions are those of the
    reference run; and the lambda executions of ALL nesting levels (node, input) are, as a multiset, those of
@@ -322,15 +327,35 @@ End GenericSusp.
    least set of channels all of whose control entries are skipped or marked — so it does not depend on the
    order of the completed tasks. *)
 Theorem resume_equiv_nested : forall F, Forall batch_graph F ->
-  forall x eU0 coU eU' vU e cos e' cos' co,
-    EOKe eU0 -> EOKe e ->
+  forall mods x eU0 coU eU' vU e cos e' cos' co,
     run_drive (map strip F) false [] x eU0 = ([coU], eU') -> co_out coU = ODone vU ->
-    run_drive F true [] x e = (cos, e') -> cos = cos' ++ [co] ->
+    run_drive F true mods x e = (cos, e') -> cos = cos' ++ [co] ->
     RunLoopSusp.is_interrupt (co_out co) \/
     (co_out co = ODone vU /\
      Permutation (RunLoopSusp.good (RunLoopSusp.all_logs cos)) (co_log coU) /\
      exists LU LI, trE eU' = trE eU0 ++ LU /\ trE e' = trE e ++ LI /\ Permutation LI LU).
 Proof. exact nested_equiv_batch_l. Qed.
+
+(* The all-predecessor channel layer (Proofs/InterruptChanDag.v, Proofs/InterruptChanDagSkip.v). (1) Resolving the
+   completed tasks of a step in another order ends in the SAME channel table: the skip propagation of
+   reportBranch (report_skip_to + the work list) computes a least fixpoint. Stated for [resolve_all] of
+   Model/Graph.v over the joint invariant of C02 (R = resolved, G = handed out; the tasks are handed out and are
+   no predecessor of a channel that has been read). (2) The channels of a Graph-built all-predecessor graph
+   satisfy everything [susp_equiv] asks of a channel layer, relative to [dagJ2]. *)
+Theorem dag_skip_propagation_order_independent :
+  forall (g : graph), g_mode g = Dag ->
+  forall cs R G A B csA wA dA,
+    DagInv.Inv value g cs R G [] -> akeys cs = akeys (init_chans_v0 value g) ->
+    (forall k, In k (akeys A) -> In k R /\ DagInv.npred g G k) ->
+    Permutation A B ->
+    resolve_all value tree_ops g A cs = Ok (csA, wA, dA) ->
+    exists wB dB, resolve_all value tree_ops g B cs = Ok (csA, wB, dB) /\ Permutation wA wB /\ Permutation dA dB.
+Proof. exact resolve_all_perm. Qed.
+
+Theorem dag_channel_layer :
+  forall (g : graph), g_mode g = Dag -> (exists q, DagInv.gpred g kEND q) -> graph_built g ->
+  chan_layer (ifold g) (igetr g) (dagJ2 g).
+Proof. exact chan_layer_dag. Qed.
 
 (* non-vacuity (1): START -> 2 (nested graph) -> 3 -> END, the nested graph START -> 4 -> 5 -> END has
    interrupt-after 4, node 3 aborts its first attempt: the hypotheses hold, the reference run completes
@@ -349,6 +374,14 @@ Example resume_equiv_nested_hypotheses_hold :
 Proof.
   exact (conj (Forall_impl batch_graph pregel_batch wn_pregel) (conj wn_reference wn_interrupted)).
 Qed.
+
+(* non-vacuity (4), calls with a state modifier: the forest of (1), every call carrying the modifier (the
+   second interrupt reports a top-level state whose counter the modifier has bumped once) *)
+Example resume_equiv_nested_modifier_hypotheses_hold : exists co1 co2 co3 e v st,
+  run_drive wn_F true [true] wn_x (env0 []) = ([co1; co2; co3], e) /\
+  (exists i2 c2, co_out co2 = OInterrupted i2 c2 /\ ii_gs i2 = Some st /\ st_mods st = 1) /\
+  co_out co3 = ODone v /\ List.length (trE e) = 3%nat.
+Proof. exact wn_interrupted_mod. Qed.
 
 (* non-vacuity (3), all-predecessor mode with a branch: START -> {2, 6}; node 2 selects 3 of its branch ends
    {3, 4} (4 is skipped and the skip propagated to the join 5 of 3, 4, 6); node 6 aborts its first attempt
@@ -394,4 +427,7 @@ Print Assumptions susp_equiv.
 Print Assumptions resume_equiv_nested.
 Print Assumptions resume_equiv_nested_hypotheses_hold.
 Print Assumptions resume_equiv_nested_dag_hypotheses_hold.
+Print Assumptions resume_equiv_nested_modifier_hypotheses_hold.
 Print Assumptions resume_equiv_nested_dag_branch_hypotheses_hold.
+Print Assumptions dag_skip_propagation_order_independent.
+Print Assumptions dag_channel_layer.
